@@ -857,6 +857,11 @@ theorem safe_compactOps (inp : Input) (o : Op) (ho : o = .algRemoveIf ∨ o = .a
   · exact safe_compact (not_lvcr_of_in hs.1.1.2 rvio_io) (by omega)
   · exact safe_compact (not_lvcr_of_in hs.1.1.1.2 rvio_io) (by omega)
 
+theorem safe_seqIterVec (inp : Input) (h : wf .algSeqIterationVec inp = true) : Safe inp (prog .algSeqIterationVec inp) := by
+  have hs := shape_of_wf h
+  simp only [shapeOk, Bool.and_eq_true, beq_iff_eq] at hs
+  exact safe_iterEraseVec (not_lvcr_of_in hs.1.1.2 rvio_io) (by omega)
+
 theorem safe_algRemove (inp : Input) (h : wf .algRemove inp = true) : Safe inp (prog .algRemove inp) := by
   have hs := shape_of_wf h
   simp only [shapeOk, Bool.and_eq_true, beq_iff_eq] at hs
@@ -1035,5 +1040,6 @@ theorem prog_safe (o : Op) (inp : Input) (h : wf o inp = true) : Safe inp (prog 
   | algUniqueIf => exact safe_compactOps inp _ (by simp) h
   | algRemove => exact safe_algRemove inp h
   | algUnique => exact safe_algUnique inp h
+  | algSeqIterationVec => exact safe_seqIterVec inp h
 
 end Fcppt.C05
